@@ -31,6 +31,16 @@ class Eq:
         return 'Eq(%r)#%x' % (self.v, id(self) & 0xfff)
 
 
+class Falsy(Eq):
+    """a registered value that is falsy (an empty container-like component)"""
+
+    def __bool__(self):
+        return False
+
+    def __len__(self):
+        return 0
+
+
 def norm_req(req):
     return tuple(Interface if r is None else r for r in req)
 
